@@ -411,10 +411,21 @@ func (r constantReference) Link(scope Scope, t TypeSpec) (ConstantValue, error) 
 
 	if enum, ok := lookupEnum(scope, mname); ok {
 		if item, ok := enum.LookupItem(iname); ok {
-			return EnumItemReference{
+			ref := EnumItemReference{
 				Enum: enum,
 				Item: item,
-			}, nil
+			}
+			switch RootTypeSpec(t).(type) {
+			case *I8Spec, *I16Spec, *I32Spec, *I64Spec:
+				// An enum item may be used where an integer is
+				// expected, if its value fits that integer type.
+				if _, err := ConstantInt(item.Value).Link(scope, t); err != nil {
+					return nil, err
+				}
+				return ref, nil
+			}
+			// For every other type the item must belong to that type.
+			return ref.Link(scope, t)
 		}
 
 		return nil, referenceError{
